@@ -31,7 +31,7 @@ import (
 
 type c04Job struct {
 	Pairs   string `json:"pairs"` // subset of "123"
-	Var     string `json:"var"`   // same | event | addr | plans-tx | plans-ev
+	Var     string `json:"var"`   // same | event | addr | plans-tx | plans-ev | idcols-all | idcols-some | ref
 	Restart string `json:"restart"` // "" | P1 | P2 | P3: this pair's thread restarts everything (loadTasks) before its second step
 	K       int    `json:"k"` // steps per pair thread in the explored phase
 	Batch   int    `json:"batch"`
@@ -49,7 +49,7 @@ func init() {
 		ID:        "C04",
 		Level:     "model_checking",
 		Technique: "stateless model checking of the real pipeline (controlled scheduler over instrumented code, fake Postgres, two simulated nodes): all step-granular interleavings (plus preemption-bounded finer ones) of one thread per (source, integration) pair, one environment thread per source (growth + reorg) and a restart driver; oracle = frame condition on every commit diff (only rows and positions stamped with the acting pair may change), stamp of every inserted row, and per-pair projection of the pair's own canonical chain at quiescence",
-		Rule: "jobs = every subset of size 2 and 3 of {P1=(srcA,ig1), P2=(srcA,ig2), P3=(srcB,ig1)} (one shared table; srcA and srcB are different nodes with different chains; every pair has indexed block 1 before the explored phase) x declaration variant {same event, different events, same event with disjoint log_addr filters, different data plans on one client: headers+logs next to transaction indexing (full blocks) / next to the same event selecting tx_input (blocks+logs)} x restart {none, by P1 before its second step in the subset {P1,P2} (thorough: also by P2 there, and by P3 in {P1,P3} and {P2,P3})} x K=2 steps per pair (thorough also 3) with one reorg (longer replacement) per source; " +
+		Rule: "jobs = every subset of size 2 and 3 of {P1=(srcA,ig1), P2=(srcA,ig2), P3=(srcB,ig1)} (one shared table; srcA and srcB are different nodes with different chains; every pair has indexed block 1 before the explored phase) x declaration variant {same event, different events, same event with disjoint log_addr filters, different data plans on one client: headers+logs next to transaction indexing (full blocks) / next to the same event selecting tx_input (blocks+logs), identity columns (all / some) listed by the user in table.columns of the integration that shares the table (or of the only integration), one integration on two sources whose first input is filtered by reference (a database lookup per log inside Insert; no reorg in this job)} x restart {none, by P1 before its second step in the subset {P1,P2} (quick: variant same only; thorough: also by P2 there, and by P3 in {P1,P3} and {P2,P3})} x K=2 steps per pair (thorough also 3) with one reorg (longer replacement) per source; " +
 			"per job every schedule with free switches at the step boundaries of the first source's pairs and <= 1 preemption (thorough: 2 on the two-pair jobs without restart; three-pair jobs: quick 0, thorough 1); preemptive switches to a pair/environment thread only at RPC exchanges with its own node. Non-trivial = rows inserted by two different pairs or a reorg deletion committed; distinct = distinct (job, choice sequence).",
 		Assumptions: []string{
 			"fake Postgres (h/simpg) interprets the SQL shovel sends; simulated nodes (h/simeth) answer like well-behaved geth nodes",
@@ -69,21 +69,38 @@ func init() {
 func c04Jobs(thorough bool) []c04Job {
 	var jobs []c04Job
 	for _, ps := range []string{"12", "13", "23", "123"} {
-		for _, v := range []string{"same", "event", "addr", "plans-tx", "plans-ev"} {
+		for _, v := range []string{"same", "event", "addr", "plans-tx", "plans-ev", "idcols-all", "idcols-some", "ref"} {
 			only2 := v == "event" || v == "plans-tx" || v == "plans-ev" // variants that only change ig2
 			if only2 && (!strings.Contains(ps, "2") || (v != "event" && !strings.Contains(ps, "1"))) {
 				continue // ig2 absent, or (data-plan variants) no sibling of ig2 on the same source client
 			}
+			if v == "ref" {
+				// one integration on two sources, every log looked up in a referenced table inside Insert
+				if ps == "13" {
+					jobs = append(jobs, c04Job{Pairs: ps, Var: v, K: 2, Batch: 1})
+					if thorough {
+						jobs = append(jobs, c04Job{Pairs: ps, Var: v, K: 2, Batch: 1, Deep: true})
+					}
+				}
+				continue
+			}
+			if v == "idcols-some" && !thorough && ps != "12" && ps != "13" {
+				continue
+			}
+			if !thorough && ps == "23" && (v == "event" || v == "addr") {
+				continue // quick: the least related two pairs (other source AND other integration) run two variants only
+			}
+			idc := strings.HasPrefix(v, "idcols")
 			jobs = append(jobs, c04Job{Pairs: ps, Var: v, K: 2, Batch: 1})
 			if thorough && len(ps) == 2 {
 				jobs = append(jobs, c04Job{Pairs: ps, Var: v, K: 2, Batch: 1, Deep: true})
 				jobs = append(jobs, c04Job{Pairs: ps, Var: v, K: 3, Batch: 1})
 			}
 			for i := 0; i < len(ps); i++ {
-				if !thorough && (i > 0 || only2 || ps != "12") {
+				if !thorough && (i > 0 || only2 || idc || ps != "12" || v != "same") {
 					continue // quick: P1 restarts next to P2 (same source client)
 				}
-				if thorough && (len(ps) > 2 || only2 || (ps != "12" && (v != "same" || ps[i] != '3'))) {
+				if thorough && (len(ps) > 2 || only2 || idc || (ps != "12" && (v != "same" || ps[i] != '3'))) {
 					continue // thorough: both pairs of {P1,P2} restart; next to P3 (other source) P3 restarts
 				}
 				jobs = append(jobs, c04Job{Pairs: ps, Var: v, Restart: "P" + ps[i:i+1], K: 2, Batch: 1})
@@ -132,11 +149,20 @@ type c04Prep struct {
 	srcOf  map[string]string
 	cidOf  map[string]uint64
 	tables []string
+	aux    []c04Pair // pairs of auxiliary integrations (variant ref), never run by an explored thread
 }
 
 var c04PrepCache = map[string]*c04Prep{}
 
-func c04Decl(variant, ig string, srcs []world.SrcRef) *world.Decl {
+// identity columns as `shovel -print-schema` lists them (shovel supplies the values; the user only names the columns)
+var (
+	idColsAll  = [][2]string{{"ig_name", "text"}, {"src_name", "text"}, {"block_num", "numeric"}, {"tx_idx", "int"}, {"log_idx", "int"}, {"abi_idx", "int2"}}
+	idColsSome = [][2]string{{"ig_name", "text"}, {"block_num", "numeric"}}
+)
+
+// c04Decl builds the declaration of role ig ("ig1" | "ig2") for a variant. declares: this integration is the one
+// that lists identity columns in table.columns (variants idcols-*).
+func c04Decl(variant, ig string, srcs []world.SrcRef, declares bool) *world.Decl {
 	var d *world.Decl
 	switch {
 	case variant == "event" && ig == "ig2":
@@ -152,7 +178,8 @@ func c04Decl(variant, ig string, srcs []world.SrcRef) *world.Decl {
 		d = shape("L1", ig, "t1", srcs...)
 	}
 	d.Fields = append(d.Fields, world.Field{Name: "chain_id", Column: "chain_id"})
-	if variant == "addr" {
+	switch variant {
+	case "addr":
 		a := addrA
 		if ig == "ig2" {
 			a = addrB
@@ -162,6 +189,29 @@ func c04Decl(variant, ig string, srcs []world.SrcRef) *world.Decl {
 				d.Fields[i].Op, d.Fields[i].Arg = "contains", []string{"0x" + hex.EncodeToString(a)}
 			}
 		}
+	case "idcols-all":
+		if declares {
+			d.ExtraCols = append(d.ExtraCols, idColsAll...)
+		}
+	case "idcols-some":
+		if declares {
+			d.ExtraCols = append(d.ExtraCols, idColsSome...)
+		}
+	case "ref":
+		// the first input is filtered by reference: a database lookup per log INSIDE Insert, between decoding the log
+		// data and reading the remaining columns
+		d.Inputs[0].Op, d.Inputs[0].Ref = "contains", &world.Ref{Integration: "@ref", Column: "rf"}
+	}
+	return d
+}
+
+// c04RefDecl is the referenced integration of variant "ref": every Transfer's sender, table tr.
+func c04RefDecl(srcs []world.SrcRef) *world.Decl {
+	d := &world.Decl{Table: "tr", Sources: srcs, Event: "Transfer"}
+	d.Inputs = []world.Input{
+		{Name: "from", Type: "address", Indexed: true, Column: "rf"},
+		{Name: "to", Type: "address", Indexed: true},
+		{Name: "value", Type: "uint256"},
 	}
 	return d
 }
@@ -185,24 +235,49 @@ func c04Prepare(j c04Job) (*c04Prep, error) {
 	if has("2") {
 		s2 = append(s2, world.SrcRef{Name: "srcA", Start: 1})
 	}
-	var d1, d2 *world.Decl
+	var d1, d2, dr *world.Decl
+	declares1 := len(s2) == 0 // identity columns are declared by ig2 when present (sharing the table), else by ig1 (alone)
+	if j.Var == "ref" {
+		dr = c04RefDecl(append([]world.SrcRef{}, s1...))
+		uniqueName(dr, "igr")
+	}
 	if len(s1) > 0 {
-		d1 = c04Decl(j.Var, "ig1", s1)
+		d1 = c04Decl(j.Var, "ig1", s1, declares1)
+		if dr != nil {
+			d1.Inputs[0].Ref.Integration = dr.Name
+		}
+		uniqueName(d1, "ig1")
 		p.decls = append(p.decls, d1)
 	}
 	if len(s2) > 0 {
-		d2 = c04Decl(j.Var, "ig2", s2)
+		d2 = c04Decl(j.Var, "ig2", s2, !declares1)
+		if dr != nil {
+			d2.Inputs[0].Ref.Integration = dr.Name
+		}
+		uniqueName(d2, "ig2")
 		p.decls = append(p.decls, d2)
+	}
+	if dr != nil {
+		p.decls = append(p.decls, dr)
 	}
 	p.nIG = len(p.decls)
 	if has("1") {
-		p.pairs = append(p.pairs, c04Pair{"P1", "srcA", "ig1", "node1", 7, d1})
+		p.pairs = append(p.pairs, c04Pair{"P1", "srcA", d1.Name, "node1", 7, d1})
 	}
 	if has("2") {
-		p.pairs = append(p.pairs, c04Pair{"P2", "srcA", "ig2", "node1", 7, d2})
+		p.pairs = append(p.pairs, c04Pair{"P2", "srcA", d2.Name, "node1", 7, d2})
 	}
 	if has("3") {
-		p.pairs = append(p.pairs, c04Pair{"P3", "srcB", "ig1", "node2", 8, d1})
+		p.pairs = append(p.pairs, c04Pair{"P3", "srcB", d1.Name, "node2", 8, d1})
+	}
+	if dr != nil { // the referenced integration's own pairs: stepped by the main thread only (set-up and drain)
+		for _, sr := range dr.Sources {
+			if sr.Name == "srcA" {
+				p.aux = append(p.aux, c04Pair{"R-A", "srcA", dr.Name, "node1", 7, dr})
+			} else {
+				p.aux = append(p.aux, c04Pair{"R-B", "srcB", dr.Name, "node2", 8, dr})
+			}
+		}
 	}
 	var srcs []world.Source
 	if has("1") || has("2") {
@@ -229,6 +304,11 @@ func c04Prepare(j c04Job) (*c04Prep, error) {
 		p.init[host] = c0
 		word := w0[:1] + repl
 		c1 := c0.Reorg(1, specsFor(word, 2, 1+len(repl)), salt+1)
+		if j.Var == "ref" {
+			// the job about overlapping inserts of ONE integration on two sources keeps both sources still
+			p.final[host] = c0
+			return
+		}
 		p.ops[host] = []*simeth.Chain{c1}
 		p.final[host] = c1
 	}
@@ -291,15 +371,40 @@ func c04Exec(j c04Job, p *c04Prep, ch vrt.Chooser, states *vrt.StateSet, trace b
 			return
 		}
 		tasks, err := w.LoadTasks(conf)
-		if err != nil || len(tasks) != len(p.pairs) {
-			w.HarnessErr = fmt.Sprintf("loadTasks: %v (%d tasks, %d pairs)", err, len(tasks), len(p.pairs))
+		if err != nil || len(tasks) != len(p.pairs)+len(p.aux) {
+			w.HarnessErr = fmt.Sprintf("loadTasks: %v (%d tasks, %d pairs)", err, len(tasks), len(p.pairs)+len(p.aux))
 			return
 		}
 		current := map[string]*world.Task{}
 		for _, t := range tasks {
 			current[t.Key()] = t
 		}
-		cols := w.TableCols("t1")
+		allPairs := make([]*c04Pair, 0, len(p.pairs)+len(p.aux)) // auxiliary pairs first (others depend on them)
+		for i := range p.aux {
+			allPairs = append(allPairs, &p.aux[i])
+		}
+		for i := range p.pairs {
+			allPairs = append(allPairs, &p.pairs[i])
+		}
+		pairByKey := map[string]*c04Pair{}
+		colsOf := map[string][]string{} // data table -> columns
+		for _, pr := range allPairs {
+			pairByKey[pr.src+"/"+pr.ig] = pr
+			if _, ok := colsOf[pr.decl.Table]; !ok {
+				colsOf[pr.decl.Table] = w.TableCols(pr.decl.Table)
+			}
+		}
+		// reference filters look values up in the referenced integration's table (whatever source wrote them)
+		refVals := map[string]bool{}
+		for i := range p.aux {
+			a := &p.aux[i]
+			for _, r := range a.decl.Expect(p.final[a.host], a.src, a.chainID, 1, p.final[a.host].Head().Num, nil) {
+				if b, ok := r["rf"].([]byte); ok {
+					refVals[string(b)] = true
+				}
+			}
+		}
+		look := func(integration, column string, v []byte) bool { return refVals[string(v)] }
 		// ---- frame condition and stamps on every commit
 		w.OnCommit = func(c world.Commit) {
 			if c.Ev.Kind != "commit" && c.Ev.Kind != "autocommit" || len(c.Ev.Changes) == 0 {
@@ -319,11 +424,18 @@ func c04Exec(j c04Job, p *c04Prep, ch vrt.Chooser, states *vrt.StateSet, trace b
 			}
 			for _, chg := range c.Ev.Changes {
 				chg.Table = strings.TrimPrefix(chg.Table, "public.")
-				switch chg.Table {
-				case "t1", "shovel.task_updates":
-				default:
-					vio("frame", "foreign-table:"+tag, fmt.Sprintf("thread %s (pair %s/%s) changed table %s", c.Thread, pr.src, pr.ig, chg.Table))
+				if chg.Table != pr.decl.Table && chg.Table != "shovel.task_updates" {
+					vio("frame", "foreign-table:"+tag, fmt.Sprintf("thread %s (pair %s/%s, table %s) changed table %s", c.Thread, pr.src, pr.ig, pr.decl.Table, chg.Table))
 					return
+				}
+				if chg.Op == "insert" && chg.Table != "shovel.task_updates" {
+					// every stored row carries the identity of what produced it
+					for _, col := range []string{"src_name", "ig_name", "block_num", "tx_idx"} {
+						if v, ok := chg.Row.Vals[col]; !ok || v == nil {
+							vio("stamp", "stamp:identity-column-null:"+col+":"+tag, fmt.Sprintf("pair (%s, %s) inserted a row into %s whose %s is NULL (row id %d): %s", pr.src, pr.ig, chg.Table, col, chg.Row.ID, world.RenderRow(world.Row(chg.Row.Vals), colsOf[chg.Table])))
+							return
+						}
+					}
 				}
 				what := "row"
 				if chg.Table == "shovel.task_updates" {
@@ -347,6 +459,10 @@ func c04Exec(j c04Job, p *c04Prep, ch vrt.Chooser, states *vrt.StateSet, trace b
 				}
 				if chg.Op == "insert" && chg.Table == "t1" {
 					inserted[pr.name] = true
+					if bn, _ := blockNumOf(chg.Row); bn == 0 || bn > 16 {
+						vio("stamp", "stamp:block-num:"+tag, fmt.Sprintf("pair (%s, %s) inserted a row with block_num=%d", pr.src, pr.ig, bn))
+						return
+					}
 					if cid, ok := chg.Row.Vals["chain_id"].(int64); !ok || uint64(cid) != pr.chainID {
 						vio("stamp", "stamp:chain-id:"+tag, fmt.Sprintf("pair (%s, %s) of chain %d inserted a row with chain_id=%v", pr.src, pr.ig, pr.chainID, chg.Row.Vals["chain_id"]))
 						return
@@ -360,30 +476,57 @@ func c04Exec(j c04Job, p *c04Prep, ch vrt.Chooser, states *vrt.StateSet, trace b
 
 		// before the explored phase every pair indexes block 1 of its one-block chain and polls once more (nothing
 		// new); this also starts the clients' head pollers, which are parked before the explored phase
-		for _, t := range tasks {
-			for i := range p.pairs {
-				if p.pairs[i].src+"/"+p.pairs[i].ig == t.Key() {
-					acting = &p.pairs[i]
+		// (passes over all tasks until a whole pass reports nothing new: a task may have to wait for another one)
+		settle := func(what string, only []*c04Pair, patient bool) bool {
+			for pass := 0; ; pass++ {
+				progress := false
+				for _, pr := range only {
+					t := current[pr.src+"/"+pr.ig]
+					acting = pr
+					for s, idle := 0, 0; ; s++ {
+						out, err := t.Step()
+						if res.vio != nil || w.V.Closing() {
+							return false
+						}
+						if out == "nothing" {
+							// patient: the client's head cache may answer up to (number of integrations) polls with an older head
+							if idle++; idle > p.nIG || !patient {
+								break
+							}
+							continue
+						}
+						idle = 0
+						if out != "ok" || s > 12 || pass > 6 {
+							vio("setup", what+":"+out+":"+errClass(err)+":"+tag, fmt.Sprintf("%s: pair %s/%s cannot index its source's chain (other pairs already did or will): %s %v", what, pr.src, pr.ig, out, err))
+							return false
+						}
+						progress = true
+					}
+				}
+				if !progress || (!patient && len(p.aux) == 0) {
+					// (without auxiliary integrations no task waits for another: one pass is enough, and every pair
+					// polls exactly once after its last block — the head cache is then due for a refresh)
+					acting = nil
+					return true
 				}
 			}
-			for s := 0; ; s++ {
-				out, err := t.Step()
-				if res.vio != nil {
-					return
-				}
-				if out == "nothing" {
-					break
-				}
-				if out != "ok" || s > 3 {
-					vio("setup", "initial-indexing:"+out+":"+errClass(err)+":"+tag, fmt.Sprintf("pair %s cannot index block 1 of its source (other pairs already did or will): %s %v", t.Key(), out, err))
-					return
-				}
-			}
+		}
+		if !settle("initial-indexing", allPairs, false) {
+			return
 		}
 		acting = nil
 		w.V.WaitIdle()
 		for _, h := range p.hosts {
 			w.SetChain(h, p.init[h], "init")
+		}
+		if len(p.aux) > 0 { // auxiliary integrations follow their sources before the explored phase
+			var aux []*c04Pair
+			for i := range p.aux {
+				aux = append(aux, &p.aux[i])
+			}
+			if !settle("initial-indexing", aux, true) {
+				return
+			}
 		}
 		g.open = true
 
@@ -401,7 +544,9 @@ func c04Exec(j c04Job, p *c04Prep, ch vrt.Chooser, states *vrt.StateSet, trace b
 		scriptB := len(p.pairs) > 2 // see below
 		envLeft := map[string]int{}
 		for _, h := range p.hosts {
-			envLeft[h] = 1
+			if len(p.ops[h]) > 0 {
+				envLeft[h] = 1
+			}
 		}
 		var threads []*vrt.Thread
 		for i := range p.pairs {
@@ -411,8 +556,11 @@ func c04Exec(j c04Job, p *c04Prep, ch vrt.Chooser, states *vrt.StateSet, trace b
 			// costs a preemption), the boundaries of the first source's pairs are free
 			coarse := pr.host == "node2" && len(p.hosts) > 1
 			pth := w.V.GoNamed(pr.name, func() {
+				stale, repoll := 0, false
 				for s := 0; s < j.K; s++ {
-					if coarse {
+					if repoll {
+						repoll = false // the poll a second after a stale head answer follows without a step boundary
+					} else if coarse {
 						vrt.Yield("step:" + pr.name)
 					} else {
 						vrt.Boundary("step")
@@ -431,7 +579,7 @@ func c04Exec(j c04Job, p *c04Prep, ch vrt.Chooser, states *vrt.StateSet, trace b
 						if w.V.Closing() {
 							return
 						}
-						if err != nil || len(nt) != len(p.pairs) {
+						if err != nil || len(nt) != len(p.pairs)+len(p.aux) {
 							w.HarnessErr = fmt.Sprintf("restart loadTasks: %v (%d tasks)", err, len(nt))
 							return
 						}
@@ -462,6 +610,15 @@ func c04Exec(j c04Job, p *c04Prep, ch vrt.Chooser, states *vrt.StateSet, trace b
 					case "error":
 						res.stepErrs[errClass(err)]++
 					}
+					if cur, _ := w.Latest(pr.src, pr.ig); out == "nothing" && cur.Num < w.Node(pr.host).Chain().Head().Num && stale < p.nIG {
+						// the head cache answered with an older head although the source is ahead: a real task polls again
+						// a second later; this poll is not one of the pair's K steps
+						stale++
+						s--
+						repoll = true
+						continue
+					}
+					stale = 0
 					if out != "ok" && envLeft[pr.host] > 0 && s < j.K-1 && !(scriptB && pr.host == "node2") {
 						// polling an unchanged source again would repeat the same step: wait for the source's reorg
 						host := pr.host
@@ -474,7 +631,8 @@ func c04Exec(j c04Job, p *c04Prep, ch vrt.Chooser, states *vrt.StateSet, trace b
 			// SQL statements of different pairs touch disjointly stamped rows and are not interleaved preemptively
 			host := pr.host
 			pth.OnlyAt = func(l string) bool {
-				return strings.HasPrefix(l, "rpc:"+host+":") || strings.HasPrefix(l, "boundary:") || strings.HasPrefix(l, "step:")
+				return strings.HasPrefix(l, "rpc:"+host+":") || strings.HasPrefix(l, "boundary:") || strings.HasPrefix(l, "step:") ||
+					strings.HasPrefix(l, "sql:extended:select true from") // the reference-filter lookup inside Insert (variant ref)
 			}
 			threads = append(threads, pth)
 		}
@@ -486,6 +644,9 @@ func c04Exec(j c04Job, p *c04Prep, ch vrt.Chooser, states *vrt.StateSet, trace b
 				if scriptB {
 					continue
 				}
+			}
+			if len(p.ops[h]) == 0 {
+				continue
 			}
 			th := w.V.GoNamed(name, func() {
 				for i, c := range p.ops[h] {
@@ -511,8 +672,7 @@ func c04Exec(j c04Job, p *c04Prep, ch vrt.Chooser, states *vrt.StateSet, trace b
 			return
 		}
 		// ---- drain: every pair to quiescence, sequentially
-		for i := range p.pairs {
-			pr := &p.pairs[i]
+		for _, pr := range allPairs {
 			acting = pr
 			head := p.final[pr.host].Head().Num
 			t := current[pr.src+"/"+pr.ig]
@@ -550,24 +710,28 @@ func c04Exec(j c04Job, p *c04Prep, ch vrt.Chooser, states *vrt.StateSet, trace b
 		}
 		acting = nil
 		// ---- per-pair projection at quiescence
-		all := w.PG.Dump("t1")
-		byPair := map[string][]simpg.Row{}
-		for _, r := range all {
-			byPair[strOf(r, "src_name")+"/"+strOf(r, "ig_name")] = append(byPair[strOf(r, "src_name")+"/"+strOf(r, "ig_name")], r)
+		byPair := map[string][]simpg.Row{} // table|src/ig -> rows
+		for tbl := range colsOf {
+			for _, r := range w.PG.Dump(tbl) {
+				k := tbl + "|" + strOf(r, "src_name") + "/" + strOf(r, "ig_name")
+				byPair[k] = append(byPair[k], r)
+			}
 		}
 		known := map[string]bool{}
-		for i := range p.pairs {
-			pr := &p.pairs[i]
-			known[pr.src+"/"+pr.ig] = true
+		knownPos := map[string]bool{}
+		for _, pr := range allPairs {
+			cols := colsOf[pr.decl.Table]
+			known[pr.decl.Table+"|"+pr.src+"/"+pr.ig] = true
+			knownPos[pr.src+"/"+pr.ig] = true
 			final := p.final[pr.host]
 			head := final.Head().Num
-			got := world.RenderDump(byPair[pr.src+"/"+pr.ig], cols)
-			want := world.RenderRows(pr.decl.Expect(final, pr.src, pr.chainID, 1, head, nil), cols)
+			got := world.RenderDump(byPair[pr.decl.Table+"|"+pr.src+"/"+pr.ig], cols)
+			want := world.RenderRows(pr.decl.Expect(final, pr.src, pr.chainID, 1, head, look), cols)
 			if trace {
 				res.steps = append(res.steps, fmt.Sprintf("quiescence: pair (%s, %s) has %d rows, projection has %d", pr.src, pr.ig, len(got), len(want)))
 			}
 			if strings.Join(got, "\n") != strings.Join(want, "\n") {
-				sym := c04Symptom(p, pr, cols, got, want)
+				sym := c04Symptom(p, pr, cols, got, want, look)
 				vio("rows", "rows:"+sym+":"+tag, fmt.Sprintf("at quiescence the rows stamped (%s, %s) != projection of %s's canonical chain (head %d) for %s\n%s", pr.src, pr.ig, pr.src, head, pr.ig, world.DiffSorted(got, want)))
 				return
 			}
@@ -590,7 +754,7 @@ func c04Exec(j c04Job, p *c04Prep, ch vrt.Chooser, states *vrt.StateSet, trace b
 			}
 		}
 		for _, c := range w.Cursors() {
-			if !known[c.Src+"/"+c.IG] {
+			if !knownPos[c.Src+"/"+c.IG] {
 				vio("stamp", "stamp:unknown-pair-position:"+tag, fmt.Sprintf("a position row is stamped (%s, %s), which is no configured pair", c.Src, c.IG))
 				return
 			}
@@ -633,7 +797,7 @@ func c04Exec(j c04Job, p *c04Prep, ch vrt.Chooser, states *vrt.StateSet, trace b
 
 // c04Symptom classifies a per-pair mismatch: rows that belong to ANOTHER pair's projection (leak),
 // rows of an older version of the own chain (orphans), missing rows, duplicates.
-func c04Symptom(p *c04Prep, pr *c04Pair, cols []string, got, want []string) string {
+func c04Symptom(p *c04Prep, pr *c04Pair, cols []string, got, want []string, look world.RefLookup) string {
 	wantSet, gotSet := map[string]int{}, map[string]int{}
 	for _, s := range want {
 		wantSet[s]++
@@ -643,7 +807,7 @@ func c04Symptom(p *c04Prep, pr *c04Pair, cols []string, got, want []string) stri
 	}
 	own := map[string]bool{}
 	for _, c := range append([]*simeth.Chain{p.init[pr.host]}, p.ops[pr.host]...) {
-		for _, s := range world.RenderRows(pr.decl.Expect(c, pr.src, pr.chainID, 1, c.Head().Num, nil), cols) {
+		for _, s := range world.RenderRows(pr.decl.Expect(c, pr.src, pr.chainID, 1, c.Head().Num, look), cols) {
 			own[s] = true
 		}
 	}
